@@ -4,6 +4,27 @@ from .core import *
 from . import core
 
 
+def _frontier(nmfu, start):
+    """states at which the next byte can be dispatched when control enters `start`: condition points (proxy states) are passed through
+    along their transitions and the jump targets of the actions on them"""
+    M = nmfu.ActionOverrideMode
+    seen, out, todo = set(), [], [start]
+    while todo:
+        q = todo.pop()
+        if id(q) in seen:
+            continue
+        seen.add(id(q))
+        if isinstance(q, nmfu.DFProxyState):
+            for t in q.transitions:
+                todo.append(t.target)
+                for a in t.actions:
+                    if a.get_target_override_mode() in (M.MAY_GOTO_TARGET, M.ALWAYS_GOTO_OTHER):
+                        todo.extend(a.get_target_override_targets())
+        else:
+            out.append(q)
+    return out
+
+
 def install(nmfu):
     REC = core.REC
     Else, End = nmfu.DFTransition.Else, nmfu.DFTransition.End
@@ -74,11 +95,29 @@ def install(nmfu):
                     for t in st.transitions:
                         if id(t.target) in sub_ids:
                             incoming_pre[id(t)] = (t, tuple(id(a) for a in t.actions))
+            # a second part that begins with condition points (if / elif / else): its possible first states are computed here, from the
+            # pre-state, independently of the stand-in start state the function builds for itself
+            front_beh = None
+            if isinstance(Bstart_pre, nmfu.DFProxyState):
+                front_beh = [{s: beh(t) for s, t in table(nmfu, f).items()} for f in _frontier(nmfu, Bstart_pre)]
             REC.enabled = False   # inner DFState.transition calls are checked by the table contract below
             try:
                 r = orig(self, chained_dfa, sub_states, mark_accept, chain_actions)
             finally:
                 REC.enabled = True
+            if front_beh is not None:
+                for q in subs:
+                    for s in SY:
+                        a = A_beh[id(q)][s]
+                        if a is None or a[2]:
+                            continue
+                        for fb in front_beh:
+                            b = fb[s]
+                            if b is not None and not b[2] and b[0] != a[0]:
+                                REC.fail("DFA.append_after/C09-no-conflict", f"joined although on {symname(s)} the first part continues AND one branch of the condition the second part begins with starts: "
+                                         "ambiguous program accepted silently", {"symbol": symname(s)})
+                                return r
+                REC.ok("DFA.append_after", 257 * len(subs))
             Bs = chained_dfa.starting_state
             B_tab = table(nmfu, Bs)
             chain_ids = tuple(id(a) for a in chain)
